@@ -99,6 +99,15 @@ func (P *Program) VerifyFunc(ct *Contract, fn *ssa.Function) (res *FuncResult) {
 		f.assumeAllocated(v.T, p.Type(), st, 0)
 	}
 	f.params = args
+	// free variables of a closure under contract: arbitrary cells (captured by reference)
+	for _, fv := range fn.FreeVars {
+		v := ex.havocVal("fv_"+fv.Name(), fv.Type())
+		f.freeVars = append(f.freeVars, v)
+		f.assumeAllocated(v.T, fv.Type(), st, 0)
+		ex.vc.Assume(not(eq(v.T, "0")))
+		f.vals[fv] = v
+		f.names[fv.Name()] = append(f.names[fv.Name()], fv)
+	}
 	ex.entry = st.clone()
 	entry := ex.entry
 	pkg := P.pkgOfFn(fn, ct)
@@ -111,7 +120,7 @@ func (P *Program) VerifyFunc(ct *Contract, fn *ssa.Function) (res *FuncResult) {
 		vc.trusted["axiom "+shortPkg(ax.Pkg)+": "+ax.Src] = true
 	}
 	// requires
-	env := &SpecEnv{ex: ex, vars: vars, stypes: map[string]*SType{}, cur: st, old: entry, pkg: pkg, expand: ex.expands, what: "requires of " + ct.Target}
+	env := &SpecEnv{ex: ex, f: f, vars: vars, stypes: map[string]*SType{}, cur: st, old: entry, pkg: pkg, expand: ex.expands, what: "requires of " + ct.Target}
 	var reqs []Clause
 	if im != nil {
 		// interface method contract: `self` is the receiver
@@ -198,7 +207,7 @@ func (P *Program) VerifyFunc(ct *Contract, fn *ssa.Function) (res *FuncResult) {
 				pv[k] = v
 			}
 			bindResults(pv, fn.Signature, r.results)
-			penv := &SpecEnv{ex: ex, f: nil, vars: pv, stypes: map[string]*SType{}, cur: r.st, old: entry, pkg: en.pkg, brkPre: entry.brk, brkPost: r.st.brk, expand: ex.expands, what: "ensures of " + en.src}
+			penv := &SpecEnv{ex: ex, f: fvFrame(f), vars: pv, stypes: map[string]*SType{}, cur: r.st, old: entry, pkg: en.pkg, brkPre: entry.brk, brkPost: r.st.brk, expand: ex.expands, what: "ensures of " + en.src}
 			goals = append(goals, implies(r.st.reach, penv.boolE(en.c.Expr)))
 			if en.c.Expr.Op == "binop" && en.c.Expr.Name == "==>" {
 				covers = append(covers, and(r.st.reach, penv.boolE(en.c.Expr.Args[0])))
@@ -368,4 +377,18 @@ func (f *Frame) frameObligations(ct *Contract, locs []Loc, entry *PState, rets [
 			Goal: and(goals...), Desc: fmt.Sprintf("only the locations listed in modifies change in heap %s", hn),
 		})
 	}
+}
+
+// fvFrame: in postconditions only the closure's free variables are resolved through the frame
+// (locals are not in scope of a contract).
+func fvFrame(f *Frame) *Frame {
+	if len(f.fn.FreeVars) == 0 {
+		return nil
+	}
+	nf := &Frame{ex: f.ex, fn: f.fn, vals: map[ssa.Value]Val{}, names: map[string][]ssa.Value{}}
+	for _, fv := range f.fn.FreeVars {
+		nf.vals[fv] = f.vals[fv]
+		nf.names[fv.Name()] = []ssa.Value{fv}
+	}
+	return nf
 }
